@@ -76,7 +76,10 @@ def run_case(case, incase, driver):
             except OSError: return None
         extras_ok = all(content(x) == "E%d\n" % (k + 1) for k, x in enumerate(EXTRAS))
         leftovers = [d for d in os.listdir(cwd) if d.startswith("_scipipe_tmp")]
-        return dict(ok=ok, want=want_out, where=where, extras_ok=extras_ok, leftovers=leftovers, rc=p.returncode,
+        # the declared path AS WRITTEN opens the file (a/../x needs "a" to exist for the kernel)
+        try: written_ok = open(os.path.join(cwd, outp)).read() == token
+        except OSError: written_ok = False
+        return dict(ok=ok, want=want_out, where=where, extras_ok=extras_ok, leftovers=leftovers, rc=p.returncode, written_ok=written_ok,
                     err=(p.stderr or "")[-300:], rel=lambda x: os.path.relpath(x, W))
     finally:
         rmtree(W)
@@ -126,20 +129,20 @@ def check_C13(tier):
         try:
             return j, run_case(j[0], j[1], driver)
         except subprocess.TimeoutExpired:
-            return j, dict(ok=False, timeout=True, where=[], want="?", extras_ok=False, leftovers=[], rc=-1, err="timeout")
+            return j, dict(ok=False, timeout=True, where=[], want="?", extras_ok=False, leftovers=[], rc=-1, err="timeout", written_ok=False)
     for (c, ic), res in pmap(one, jobs, workers=16):
         chk.evaluations += 1
         at_declared = res["want"] in res["where"]
         elsewhere = [w for w in res["where"] if w != res["want"]]
-        good = res["ok"] and at_declared and not elsewhere and res["extras_ok"] and not res["leftovers"]
+        good = res["ok"] and at_declared and not elsewhere and res["extras_ok"] and not res["leftovers"] and res.get("written_ok", True)
         if c["temppath"] != c["path"] or "/" in c["path"].strip("/"):
             chk.nontrivial.add(c["path"])
         if good:
             if c["f9"]:
                 chk.notes.append("F9-class path %s works on the real binary (transcription pessimistic)" % c["path"])
             continue
-        msg = ("output declared as %r (input %r): run ok=%s rc=%s, file at declared path=%s, copies elsewhere=%s, extra files moved=%s, temp dirs left=%s %s"
-               % (c["path"], ic["path"], res["ok"], res["rc"], at_declared, [os.path.basename(w) for w in elsewhere][:3], res["extras_ok"], res["leftovers"][:1], res["err"][-160:].replace("\n", " | ")))
+        msg = ("output declared as %r (input %r): run ok=%s rc=%s, file at declared path=%s (path as written opens it: %s), copies elsewhere=%s, extra files moved=%s, temp dirs left=%s %s"
+               % (c["path"], ic["path"], res["ok"], res["rc"], at_declared, res.get("written_ok"), [os.path.basename(w) for w in elsewhere][:3], res["extras_ok"], res["leftovers"][:1], res["err"][-160:].replace("\n", " | ")))
         f9like = c["f9"] or (re.search(r"(?:[^/.]\.\.|\.\.\.)/", c["path"]) and not res["ok"])     # a directory segment ending in ".." that is not ".." itself
         if f9like and findings.active("F9"):
             chk.known_finding("F9", "a not-yet-existing directory segment ending in '..' (character-level '../' replacement), e.g. %r" % c["path"])
